@@ -348,7 +348,7 @@ class CharsetAccept(Accept):
         def _normalize(name: str) -> str:
             try:
                 return codecs.lookup(name).name
-            except LookupError:
+            except (LookupError, ValueError):
                 return name.lower()
 
         return item == "*" or _normalize(value) == _normalize(item)
